@@ -35,6 +35,8 @@ import (
 	fakepgclientset "github.com/koordinator-sh/koordinator/apis/thirdparty/scheduler-plugins/pkg/generated/clientset/versioned/fake"
 	koordfake "github.com/koordinator-sh/koordinator/pkg/client/clientset/versioned/fake"
 	koordinatorinformers "github.com/koordinator-sh/koordinator/pkg/client/informers/externalversions"
+	schedconfig "github.com/koordinator-sh/koordinator/pkg/scheduler/apis/config"
+	schedconfigv1 "github.com/koordinator-sh/koordinator/pkg/scheduler/apis/config/v1"
 	"github.com/koordinator-sh/koordinator/pkg/scheduler/frameworkext"
 	frameworkexthelper "github.com/koordinator-sh/koordinator/pkg/scheduler/frameworkext/helper"
 	"github.com/koordinator-sh/koordinator/pkg/scheduler/plugins/coscheduling/core"
@@ -158,11 +160,44 @@ type c04pSuit struct {
 	stop   chan struct{}
 }
 
-func c04pNewSuit() (*c04pSuit, error) {
+func c04pDfltStr(d int) string {
+	switch d {
+	case 0:
+		return extension.GangMatchPolicyOnlyWaiting
+	case 1:
+		return extension.GangMatchPolicyWaitingAndRunning
+	case 2:
+		return extension.GangMatchPolicyOnceSatisfied
+	}
+	return ""
+}
+
+// c04pArgs: the plugin's arguments as a scheduler configuration file yields them — a v1 CoschedulingArgs with
+// `defaultMatchPolicy: <d>` (d = 2: the key is left out, so v1 defaulting has to supply once-satisfied; d = 3: the key is
+// written with the empty string), run through SetDefaults_CoschedulingArgs and converted to the internal type.
+func c04pArgs(dflt int) (*schedconfig.CoschedulingArgs, error) {
+	var v1args schedconfigv1.CoschedulingArgs
+	if dflt != 2 {
+		s := c04pDfltStr(dflt)
+		v1args.DefaultMatchPolicy = &s
+	}
+	schedconfigv1.SetDefaults_CoschedulingArgs(&v1args)
+	var args schedconfig.CoschedulingArgs
+	if err := schedconfigv1.Convert_v1_CoschedulingArgs_To_config_CoschedulingArgs(&v1args, &args, nil); err != nil {
+		return nil, err
+	}
+	return &args, nil
+}
+
+func c04pNewSuit(dflt int) (*c04pSuit, error) {
 	frameworkexthelper.ResetRegistrations()
 	su := &c04pSuit{cs: kubefake.NewSimpleClientset(), pgcs: fakepgclientset.NewSimpleClientset(), rec: &c04pRec{}, stop: make(chan struct{})}
 	var plugin fwktype.Plugin
-	proxyNew := func(_ context.Context, args apiruntime.Object, handle fwktype.Handle) (fwktype.Plugin, error) {
+	proxyNew := func(_ context.Context, _ apiruntime.Object, handle fwktype.Handle) (fwktype.Plugin, error) {
+		args, err := c04pArgs(dflt)
+		if err != nil {
+			return nil, err
+		}
 		koordClient := koordfake.NewSimpleClientset()
 		koordInformerFactory := koordinatorinformers.NewSharedInformerFactory(koordClient, 0)
 		extenderFactory, err := frameworkext.NewFrameworkExtenderFactory(
@@ -223,9 +258,88 @@ func c04pNewSuit() (*c04pSuit, error) {
 }
 
 type c04pCfg struct {
-	min, pol, mode int // pol: 0 only-waiting 1 waiting-and-running 2 once-satisfied 3 absent 4 illegal; mode: 0 NonStrict 1 Strict 2 absent 3 illegal
+	// pol (the match-policy annotation): 0 only-waiting 1 waiting-and-running 2 once-satisfied 3 absent 4 illegal 5 "" (present, empty)
+	// mode: 0 NonStrict 1 Strict (spelled exactly) 2 absent 3 another string 4 "" 5 Strict in another letter case 6 NonStrict in another letter case
+	min, pol, mode int
+	al             int // the ALIAS match-policy annotation: 0 absent, 1 + a pol token otherwise
 	group          []int
 	gshape         int // 0 absent 1 "" 2 null 3 [] 4 list 5 not JSON
+}
+
+func (c c04pCfg) aliasTok() int {
+	if c.al == 0 {
+		return 3
+	}
+	return c.al - 1
+}
+
+// the match policy the configuration DECLARES (harness' own reading): the annotation, or its alias when the annotation is
+// missing or empty; -1 = no legal policy declared; ambiguous = both carry a value and disagree (not judged by the oracle)
+func (c c04pCfg) declaredPol() (int, bool) {
+	a, b := c.pol, c.aliasTok()
+	none := func(t int) bool { return t == 3 || t == 5 }
+	switch {
+	case none(a) && none(b):
+		return -1, false
+	case none(a):
+		a = b
+	case !none(b) && a != b:
+		return -1, true
+	}
+	if a <= 2 {
+		return a, false
+	}
+	return -1, false
+}
+
+// the policy in force: the declared one, else the scheduler's CONFIGURED default (nothing configured: once-satisfied)
+func (c c04pCfg) effPol(dflt int) (int, bool) {
+	pol, amb := c.declaredPol()
+	if pol < 0 {
+		pol = dflt
+		if pol > 2 {
+			pol = 2
+		}
+	}
+	return pol, amb
+}
+
+func (c c04pCfg) respell(r *vRand) c04pCfg {
+	c.al = 0
+	switch {
+	case c.pol <= 2 && r.Chance(1, 4):
+		c.al, c.pol = c.pol+1, []int{3, 3, 3, 5}[r.Intn(4)]
+	case c.pol == 3 && r.Chance(1, 5):
+		switch r.Intn(3) {
+		case 0:
+			c.pol = 5
+		case 1:
+			c.al = 6
+		default:
+			c.pol, c.al = 5, 6
+		}
+	case c.pol == 4 && r.Chance(1, 5):
+		c.pol, c.al = []int{3, 5}[r.Intn(2)], 5
+	case c.pol != 3 && r.Chance(1, 16):
+		c.al = []int{1, 2, 3, 5}[r.Intn(4)]
+	}
+	return c
+}
+
+func c04pPolStr(t int) (string, bool) {
+	switch t {
+	case 0:
+		return extension.GangMatchPolicyOnlyWaiting, true
+	case 1:
+		return extension.GangMatchPolicyWaitingAndRunning, true
+	case 2:
+		return extension.GangMatchPolicyOnceSatisfied, true
+	case 3:
+		return "", false
+	case 5:
+		return "", true
+	}
+	return "sometimes", true
 }
 
 func (c c04pCfg) declaredGroup(self int) []int {
@@ -240,19 +354,15 @@ func (c c04pCfg) toks() string {
 	if c.gshape != 4 {
 		grp = nil
 	}
-	return fmt.Sprintf("%d %d %d %d %d %s", c.min, c.pol, c.mode, c.gshape, len(grp), vIntsI(grp))
+	return fmt.Sprintf("%d %d %d %d %d %d %s", c.min, c.pol, c.aliasTok(), c.mode, c.gshape, len(grp), vIntsI(grp))
 }
 
 func (c c04pCfg) annotate(ann map[string]string, ns string, r *vRand) {
-	switch c.pol {
-	case 0:
-		ann[extension.AnnotationGangMatchPolicy] = extension.GangMatchPolicyOnlyWaiting
-	case 1:
-		ann[extension.AnnotationGangMatchPolicy] = extension.GangMatchPolicyWaitingAndRunning
-	case 2:
-		ann[extension.AnnotationAliasGangMatchPolicy] = extension.GangMatchPolicyOnceSatisfied
-	case 4:
-		ann[extension.AnnotationGangMatchPolicy] = "sometimes"
+	if s, ok := c04pPolStr(c.pol); ok {
+		ann[extension.AnnotationGangMatchPolicy] = s
+	}
+	if s, ok := c04pPolStr(c.aliasTok()); ok {
+		ann[extension.AnnotationAliasGangMatchPolicy] = s
 	}
 	switch c.mode {
 	case 0:
@@ -260,7 +370,13 @@ func (c c04pCfg) annotate(ann map[string]string, ns string, r *vRand) {
 	case 1:
 		ann[extension.AnnotationGangMode] = extension.GangModeStrict
 	case 3:
-		ann[extension.AnnotationGangMode] = "Lenient"
+		ann[extension.AnnotationGangMode] = []string{"Lenient", "Strict ", "non-strict", "0"}[r.Intn(4)]
+	case 4:
+		ann[extension.AnnotationGangMode] = ""
+	case 5:
+		ann[extension.AnnotationGangMode] = []string{"strict", "STRICT", "sTRICT"}[r.Intn(3)]
+	case 6:
+		ann[extension.AnnotationGangMode] = []string{"nonstrict", "NONSTRICT", "nonStrict"}[r.Intn(3)]
 	}
 	switch c.gshape {
 	case 1:
@@ -343,13 +459,15 @@ func TestVerifC04Plugin(t *testing.T) {
 	}
 	lost := 0
 	var awaitDur time.Duration
-	// one framework + plugin + informers for the whole run (building it costs ~0.3 s); every case lives in its own
-	// namespace (gang ids, pod keys and the gang-group annotation carry it) and removes its objects at the end
-	su, err := c04pNewSuit()
-	if err != nil {
-		t.Fatalf("fixture: %v", err)
-	}
-	defer close(su.stop)
+	// one framework + plugin + informers per configured DefaultMatchPolicy for the whole run (building one costs ~0.3 s,
+	// built when first needed); every case lives in its own namespace (gang ids, pod keys and the gang-group annotation
+	// carry it) and removes its objects at the end
+	suits := map[int]*c04pSuit{}
+	defer func() {
+		for _, x := range suits {
+			close(x.stop)
+		}
+	}()
 	for idx := 0; idx < n+nTomb; idx++ {
 		tomb := idx >= n
 		if lost >= 3 {
@@ -359,6 +477,18 @@ func TestVerifC04Plugin(t *testing.T) {
 		if r == nil {
 			continue
 		}
+		// the scheduler's configuration: defaultMatchPolicy of the CoschedulingArgs (3 = the empty string)
+		dflt := []int{2, 2, 0, 1, 3}[r.Intn(5)]
+		su := suits[dflt]
+		if su == nil {
+			var err error
+			if su, err = c04pNewSuit(dflt); err != nil {
+				t.Fatalf("fixture (defaultMatchPolicy %d): %v", dflt, err)
+			}
+			suits[dflt] = su
+		}
+		h.Tag(fmt.Sprintf("configured-default-policy:%d", dflt))
+		h.Op("args %d", dflt)
 		ns := fmt.Sprintf("c%d", idx)
 		mgr := su.plugin.pgMgr
 		gid := func(g int) string { return fmt.Sprintf("%s/g%d", ns, g) }
@@ -375,11 +505,12 @@ func TestVerifC04Plugin(t *testing.T) {
 		for g := 0; g < nG; g++ {
 			c := c04pCfg{min: r.Range(1, 3), pol: r.Intn(4), mode: 1, gshape: []int{0, 0, 1, 2, 3, 5}[r.Intn(6)]}
 			if r.Chance(1, 3) {
-				c.mode = r.Intn(4)
+				c.mode = r.Intn(7)
 			}
 			if r.Chance(1, 12) {
 				c.pol = 4
 			}
+			c = c.respell(r)
 			if oneGroup {
 				c.gshape, c.group = 4, append([]int(nil), all...)
 				for i, j := range r.Perm(len(c.group)) {
@@ -393,9 +524,22 @@ func TestVerifC04Plugin(t *testing.T) {
 				ways[g] = 1
 			}
 		}
+		// resolution script (one case in six): ONE gang of min 2 that declares no group, any spelling of policy and mode,
+		// two scheduling rounds (see below)
+		resScript := r.Chance(1, 6)
+		if resScript {
+			nG, cfgs, ways = 1, cfgs[:1], ways[:1]
+			c := c04pCfg{min: 2, pol: []int{3, 3, 3, 5, 4, 0, 1, 2}[r.Intn(8)], mode: r.Intn(7), gshape: 0}
+			cfgs[0] = c.respell(r)
+			h.Tag("resolution-script")
+		}
 		var pods []*c04pPod
 		for g := 0; g < nG; g++ {
-			for i, k := 0, cfgs[g].min+r.Intn(2); i < k; i++ {
+			k := cfgs[g].min + r.Intn(2)
+			if resScript {
+				k = 4
+			}
+			for i := 0; i < k; i++ {
 				pods = append(pods, &c04pPod{id: g*10 + i, g: g})
 			}
 		}
@@ -404,17 +548,21 @@ func TestVerifC04Plugin(t *testing.T) {
 		// ---------- declared configuration (harness bookkeeping, never read back from the cache) ----------
 		type declT struct {
 			min, pol int
+			amb      bool // the match-policy annotation and its alias disagree: policy-dependent clauses not judged
 			strict   bool
 			group    []int
 		}
 		decl := make([]*declT, nG)
 		everBound := make([]bool, nG)
 		declare := func(g int, c c04pCfg) {
-			pol := c.pol
-			if pol > 2 {
-				pol = 2
+			// policy in force = the declared one if legal, else what the scheduler was CONFIGURED with; mode = NonStrict only
+			// when spelled exactly so
+			pol, amb := c.effPol(dflt)
+			if dp, _ := c.declaredPol(); dp < 0 {
+				h.Tag(fmt.Sprintf("declared:no legal policy, configured default %d in force", dflt))
 			}
-			decl[g] = &declT{min: c.min, pol: pol, strict: c.mode != 0, group: c.declaredGroup(g)}
+			h.Tag(fmt.Sprintf("declared:mode-spelling=%d", c.mode))
+			decl[g] = &declT{min: c.min, pol: pol, amb: amb, strict: c.mode != 0, group: c.declaredGroup(g)}
 		}
 		declGroupOf := func(g int) []int {
 			if decl[g] != nil {
@@ -451,8 +599,13 @@ func TestVerifC04Plugin(t *testing.T) {
 					o.pol = 1
 				case extension.GangMatchPolicyOnceSatisfied:
 					o.pol = 2
+				case "":
+					o.pol = 3 // only as the copy of an empty configured default
 				default:
 					o.pol = 7
+				}
+				if s.Mode != extension.GangModeStrict && s.Mode != extension.GangModeNonStrict {
+					o.pol += 100 // unexpected mode string: make it visible
 				}
 				o.grp = c04pInts(s.GangGroup, ns+"/g")
 				o.ch = c04pInts(s.Children.UnsortedList(), ns+"/p")
@@ -572,13 +725,14 @@ func TestVerifC04Plugin(t *testing.T) {
 						h.Fail("C04:released-while-group-unsatisfied", "plugin: pod %d released but gang %d of its declared group is not in the cache", q, x)
 					case d == nil:
 						h.Fail("C04:released-while-group-unsatisfied", "plugin: pod %d released but gang %d of its declared group has no valid declaration", q, x)
+					case d.amb:
 					default:
 						cnt := live(s.wa)
 						if d.pol == 1 {
 							cnt += live(s.bo)
 						}
 						if cnt < d.min && !(d.pol == 2 && (groupSatisfied(gq) || groupSatisfied(x))) {
-							h.Fail("C04:released-while-group-unsatisfied", "plugin: pod %d released but gang %d holds %d < declared min %d (declared policy %d)", q, x, cnt, d.min, d.pol)
+							h.Fail("C04:released-while-group-unsatisfied", "plugin: pod %d released but gang %d holds %d < declared min %d (policy in force %d; configured default %d)", q, x, cnt, d.min, d.pol, dflt)
 						}
 					}
 				}
@@ -595,7 +749,7 @@ func TestVerifC04Plugin(t *testing.T) {
 				}
 			}
 			if kind == 2 || kind == 3 {
-				if _, ok := prev[ps.g]; ok && decl[ps.g] != nil && decl[ps.g].strict && !(decl[ps.g].pol == 2 && groupSatisfied(ps.g)) {
+				if _, ok := prev[ps.g]; ok && decl[ps.g] != nil && decl[ps.g].strict && !decl[ps.g].amb && !(decl[ps.g].pol == 2 && groupSatisfied(ps.g)) {
 					for q, gq := range fwBefore {
 						if q == ps.id || !c04pHas(declGroupOf(ps.g), gq) {
 							continue
@@ -692,9 +846,11 @@ func TestVerifC04Plugin(t *testing.T) {
 			if update {
 				switch v := r.Intn(3); v {
 				case 0: // annotation-only
-					c.pol, c.mode = r.Intn(5), r.Intn(4)
+					c.pol, c.mode = r.Intn(5), r.Intn(7)
+					c = c.respell(r)
 				case 1:
-					c.min, c.pol, c.mode = r.Range(0, 3), r.Intn(5), r.Intn(4)
+					c.min, c.pol, c.mode = r.Range(0, 3), r.Intn(5), r.Intn(7)
+					c = c.respell(r)
 				}
 				cfgs[g] = c
 			}
@@ -945,12 +1101,47 @@ func TestVerifC04Plugin(t *testing.T) {
 				doPG(g, false)
 			}
 		}
-		for _, i := range r.Perm(len(pods)) {
-			if r.Chance(9, 10) {
-				doPodEvt(pods[i], false, false)
+		nOps := r.Range(6, 22)
+		if resScript {
+			// round 1: member 0 parks (1 < min 2), member 1 finds no node (strict => 0 is rejected), then both are released
+			// and bound; round 2: a replacement member 2 comes to Permit alone (waits unless the policy in force counts the
+			// bound members or is once-satisfied), member 3 finds no node (strict and not once-satisfied => 2 is rejected)
+			nOps = r.Range(0, 6)
+			doPodEvt(pods[0], false, false)
+			doPodEvt(pods[1], false, false)
+			doPermit(pods[0])
+			doPostFilter(pods[1])
+			if pods[0].flight == 3 {
+				doUnreserve(pods[0])
+			}
+			if pods[0].flight == 0 {
+				doPermit(pods[0])
+			}
+			doPermit(pods[1])
+			if pods[0].flight == 2 {
+				doPostBind(pods[0])
+			}
+			if pods[1].flight == 2 {
+				doPostBind(pods[1])
+			}
+			doPodEvt(pods[2], false, false)
+			doPermit(pods[2])
+			doPodEvt(pods[3], false, false)
+			doPostFilter(pods[3])
+			switch pods[2].flight {
+			case 2:
+				doPostBind(pods[2])
+			case 1, 3:
+				doUnreserve(pods[2])
+			}
+		} else {
+			for _, i := range r.Perm(len(pods)) {
+				if r.Chance(9, 10) {
+					doPodEvt(pods[i], false, false)
+				}
 			}
 		}
-		for step, nOps := 0, r.Range(6, 22); step < nOps; step++ {
+		for step := 0; step < nOps; step++ {
 			if tomb && r.Chance(1, 5) {
 				// a member that holds resources (parked, released or bound) vanishes; mostly noticed on re-list
 				ps := pick(func(x *c04pPod) bool { return x.added && isChild(x) && (x.flight == 1 || x.flight == 2 || x.bound) })
@@ -1055,7 +1246,9 @@ func TestVerifC04Plugin(t *testing.T) {
 	}
 	h.Extra("informer_events_lost", lost)
 	h.Extra("await_ms", awaitDur.Milliseconds())
-	h.Close("plugin harness: New() inside a real scheduler framework runtime (its own waiting-pod map), events through fake clientsets + the informers " +
+	h.Close("plugin harness: New() inside a real scheduler framework runtime (its own waiting-pod map), one per configured defaultMatchPolicy (only-waiting / waiting-and-running / left out / empty; " +
+		"the args go through v1 defaulting + conversion), match policy through the annotation or its alias (legal / absent / empty / illegal), mode in 7 spellings incl. other letter cases; " +
+		"one case in six is a two-round script on one gang of min 2 (park + failure, release + bind, lone replacement member + failure); events through fake clientsets + the informers " +
 		"wired by NewPodGroupManager; history = arrival of 1-3 gangs (PodGroup or pod-annotation way, all shapes of the groups annotation) then 6-22 " +
 		"protocol-respecting informer events and Permit / Unreserve / PostBind / AfterPostFilter calls through the framework; " +
 		fmt.Sprintf("plus a tombstone stream of %d cases: members that hold resources vanish more often and two deletes out of three are handed to the handlers registered on the "+
